@@ -8,6 +8,7 @@ import (
 	"io"
 	"os"
 	"os/exec"
+	"runtime"
 	"strconv"
 	"strings"
 	"time"
@@ -414,7 +415,20 @@ func parseVal(v string) uint64 {
 
 // OneShot decides sat(pc ∧ q) with fresh non-incremental solver processes run in parallel (a
 // portfolio); the first definite answer wins. Models are read with get-value when vars != nil.
+// oneShotSem bounds the number of portfolios running at the same time: 16 workers times 3-4 solver
+// processes each would oversubscribe the machine and turn slow queries into timeouts.
+var oneShotSem = make(chan struct{}, maxInt(2, runtime.NumCPU()/3))
+
+func maxInt(a, b int) int {
+	if a > b {
+		return a
+	}
+	return b
+}
+
 func OneShot(kinds []string, timeoutMs int, pc []*term.Term, q *term.Term, vars map[string]uint8, dumpTo string) (Result, map[string]uint64, string) {
+	oneShotSem <- struct{}{}
+	defer func() { <-oneShotSem }()
 	type ans struct {
 		r     Result
 		m     map[string]uint64
